@@ -671,12 +671,20 @@ Fixpoint assigns (b : list stmt) (c : nat) : Prop :=
   | _ :: r => assigns r c
   end.
 
+Lemma assigns_setitems name (kvs : list (expr * expr)) c : forall b,
+  assigns b c -> assigns (rev (map (fun kv => SSetItemV name (fst kv) (snd kv)) kvs) ++ b) c.
+Proof.
+  induction kvs as [|kv r IH]; intros b H; cbn; [exact H|].
+  rewrite <- app_assoc. apply IH. cbn. exact H.
+Qed.
+
 Lemma assigns_step o f f' :
   step o f = Ok f' -> assigns (body f) (ctr f) -> assigns (body f') (ctr f').
 Proof.
   intros H N. destruct o; cbn [step] in H; unfold bind_call, emit_import in H.
   all: repeat (progress (fk_inv; eqs; subst; simp_proj; inv_pairs; crack)).
-  all: simp_proj; cbn [assigns body ctr]; auto.
+  all: rewrite ?fold_emit_eq; simp_proj; cbn [assigns body ctr]; auto.
+  all: try (apply assigns_setitems; cbn [assigns]; auto).
   all: repeat match goal with |- context[is_builtins ?m] => destruct (is_builtins m) end;
     simp_proj; cbn [assigns body ctr]; auto.
 Qed.
@@ -979,7 +987,6 @@ Proof.
                  | i st0 obj st0' b l Hi Hst Hre IH
                  | i e x b l He Hi Hre IH
                  | i k0 v0 obj k0' v0' b l Hi Hk Hv Hre IH
-                 | i kvs obj kvs' b l Hi Hkvs Hre IH
                  | e v b l He Hre IH ];
     intros c K Has Hnum Hincl Hewf Hfit Hres.
   - (* nil *)
@@ -1158,9 +1165,6 @@ Proof.
       * exact Iv.
       * exact Ii.
       * exact I.
-  - (* x.update({...}): not covered *)
-    cbn [body_fits] in Hfit. apply andb_true_iff in Hfit. destruct Hfit as [Hs Hfit].
-    cbn in Hs. discriminate Hs.
   - (* result = e *)
     cbn [assigns] in Has.
     cbn [body_fits] in Hfit. apply andb_true_iff in Hfit. destruct Hfit as [Hs Hfit].
@@ -1192,7 +1196,7 @@ Proof.
 Qed.
 
 (* Calls (REDUCE / NEWOBJ / OBJ / INST / GLOBAL / STACK_GLOBAL / BUILD on an object / BINPERSID /
-   SETITEM on an object) on top of arbitrary data: the decompiled program evaluates, its result
+   SETITEM and SETITEMS on an object) on top of arbitrary data: the decompiled program evaluates, its result
    unfolds to the same tree as the VM's value, and its event log is the VM's (same callee, same
    arguments, same order, results numbered alike; builtins resolves are implicit). *)
 Theorem eval_agrees p n f v x :
